@@ -68,7 +68,7 @@ PROPS = {
         ],
     },
     'C03': {
-        'units': ['index'],
+        'units': ['index', 'chain'],
         'kani_quick': [],
         'kani_thorough': [],
         'trusted': [
@@ -85,6 +85,28 @@ PROPS = {
         'trusted': [
             'same as C03 for get_block_index == select(records)',
             'the block index records read by the code (hash, height, status, file, offset) -- the stored header (prev-hash) is never read',
+        ],
+    },
+    'C09': {
+        'units': ['chain', 'driver'],
+        'kani_quick': [],
+        'kani_thorough': [],
+        'trusted': [
+            'Block::compute_merkle_root == merkle_spec(txids in block order) -- iterator adapters, outside Verus; utils::merkle_root is checked by bounded Kani harnesses (lane K), never counted as proved',
+            'SHA-256d collision resistance (soundness clause "any bit flip fails") is a cryptographic assumption, not a contract',
+            'ChainIndex::new retains the record of height start-1 (precondition pre:predecessor_record_retained -- ASSUMED)',
+            'genesis hash constants per coin: lane K table check',
+            'process::exit(1) on Err happens before any further on_block/on_complete (unit driver: C02:err_means_no_completion)',
+        ],
+    },
+    'C17': {
+        'units': ['chain'],
+        'kani_quick': [],
+        'kani_thorough': [],
+        'trusted': [
+            'max_height_blk_index[f] == max{h : index[h].blk_index == f} -- computed by a HashMap iteration in ChainIndex::new, outside both verifiers: ASSUMED (hypotheses of lemma_open_files_bounded_step)',
+            'OS descriptor accounting: a dropped XorReader<BufReader<File>> closes its descriptor (std)',
+            'std HashMap::get_mut full-view frame (prelude/hashmap.inc)',
         ],
     },
 }
